@@ -58,6 +58,7 @@ var payloads = map[string]string{
 	"U1":     "- type: nofile\n  hard: 10\n  soft: 5\n",
 	"U2":     "- type: RLIMIT_CORE\n  hard: 0\n  soft: 0\n- type: Rlimit_nproc\n  hard: 7\n  soft: 7\n",
 	"U3":     "- type: as\n  hard: 9\n  soft: 1\n",
+	"Uzero":  "- type: core\n",
 	"U4":     "- type: STACK\n  hard: 8\n  soft: 8\n",
 	"Uempty": "[]",
 	"M5":     "- source: /src6\n  destination: /m5\n",
